@@ -60,6 +60,7 @@ Section Link.
     mkOper (an o) (option_map kn (DM.k_ch s o)) (DM.info s o) (DM.opted s o) (DM.jailed s o)
            (match usd o with Some _ => true | None => false end)
            (match usd o with Some (a, _) => a | None => 0 end)
+           (match usd o with Some (_, t) => t | None => 0 end)
            (match usd o with Some (_, t) => t | None => 0 end).
   Definition abs_opers (s : DM.st) (ops : list Z) : list oper := map (abs_oper s) ops.
 
